@@ -1,9 +1,10 @@
 #!/bin/bash
 # builds the harness crates once (offline); every check rebuilds incrementally from /repo's working tree
 cd "$(dirname "$0")"
+V="$(pwd)"
 export CARGO_NET_OFFLINE=true
 set -e
-(cd symx && CARGO_TARGET_DIR=/verif/.build/symx RUSTFLAGS="--cfg bpp_verif" cargo build --quiet)
-(cd replay && CARGO_TARGET_DIR=/verif/.build/replay RUSTFLAGS="" cargo build --quiet)
-(cd kani && RUSTFLAGS="--cfg bpp_verif" timeout 900 cargo kani -Z stubbing --target-dir /verif/.build/kani --only-codegen >/dev/null 2>&1 || true)
+(cd symx && CARGO_TARGET_DIR="$V/.build/symx" RUSTFLAGS="--cfg bpp_verif" cargo build --quiet)
+(cd replay && CARGO_TARGET_DIR="$V/.build/replay" RUSTFLAGS="" cargo build --quiet)
+(cd kani && RUSTFLAGS="--cfg bpp_verif" timeout 900 cargo kani -Z stubbing --target-dir "$V/.build/kani" --only-codegen >/dev/null 2>&1 || true)
 echo setup-ok
